@@ -291,6 +291,24 @@ fn table_layout(rep: &mut Report, r: &mut Rng) {
     if bytes(&t).iter().any(|&b| b != 0) || !t.is_empty() {
         rep.violation("PageTable::zero|bytes-left", J::Null);
     }
+    // zero() is seen by the code around it: entries written just before read back as unused just after, through the API
+    // (an optimiser that does not know zero() writes the table would forward the earlier stores)
+    for k in 0..16usize {
+        rep.eval();
+        let mut t5 = PageTable::new();
+        let slot = (k * 37 + 5) % 512;
+        t5[slot].set_addr(PhysAddr::new(0x1000 * (k as u64 + 1)), PageTableFlags::PRESENT | PageTableFlags::WRITABLE);
+        t5[511 - slot].set_addr(PhysAddr::new(ADDR_BITS), PageTableFlags::from_bits_truncate(FLAG_BITS));
+        t5.zero();
+        let seen_a = t5[slot].is_unused();
+        let seen_b = t5[511 - slot].addr().as_u64() == 0 && t5[511 - slot].flags().is_empty();
+        let seen_c = t5.is_empty();
+        if !(seen_a && seen_b && seen_c) {
+            rep.violation("PageTable::zero|entries-written-before-still-read-back-after", J::obj(vec![("profile", J::s(crate::util::profile_name())), ("slot", J::U(slot as u64)), ("is_unused", J::Bool(seen_a)), ("other_slot_cleared", J::Bool(seen_b)), ("is_empty", J::Bool(seen_c))]));
+            break;
+        }
+    }
+    rep.class("table|zero-then-read-through-the-api");
     // zero() on garbage memory
     let mut rawt = Box::new(RawTable([0u8; 4096]));
     for b in rawt.0.iter_mut() {
